@@ -50,6 +50,7 @@ pub(crate) mod verif_fss {
             }
             assert!(w.reads.load(SeqCst) == 0);
         }
+        std::mem::forget(ctx);
         kani::cover!(reuse[0] && !reuse[N - 1] && batch > 1);
     }
 
@@ -90,6 +91,7 @@ pub(crate) mod verif_fss {
         StandaloneStatSlot {}.on_entry_blocked(&ctx, BlockError::new(crate::base::BlockType::Flow));
         StandaloneStatSlot {}.on_completed(&mut ctx);
         assert!(w.writes() == 0);
+        std::mem::forget(ctx);
         kani::cover!(true);
     }
 }
